@@ -77,7 +77,12 @@ def main():
             continue
         meta = json.load(open(os.path.join(d, "meta.json")))
         prop = meta.get("property", "C01").split()[0].strip()
-        res = {"id": sid, "property": prop, "at": time.strftime("%Y-%m-%d %H:%M:%S")}
+        res = {"id": sid, "property": prop}
+        try:
+            res.update(json.load(open(os.path.join(d, "confirm.json"))))
+        except Exception:
+            pass
+        res["at"] = time.strftime("%Y-%m-%d %H:%M:%S")
         reset()
         rc, out = sh(["git", "-C", WT, "apply", os.path.join(d, "patch.diff")])
         if rc != 0:
@@ -110,11 +115,21 @@ def main():
                 rc, out = sh(f"cargo test --offline --features luau,lua54,luajit --test {name} 2>&1 | tail -30", cwd=WT, env={"CARGO_TARGET_DIR": CT})
                 p, f = tests_summary(out)
                 dres[name]["without_change"] = {"passed": p, "failed": f}
+            # shell demonstrations: demo.sh <tree> <target-dir>; exit 0 = property holds, 1 = violated
+            sh_demo = os.path.join(d, "demo.sh")
+            if os.path.exists(sh_demo):
+                sh(["git", "-C", WT, "apply", os.path.join(d, "patch.diff")])
+                rc1, out1 = sh(["bash", sh_demo, WT, CT + "-demo"], timeout=3600)
+                sh(["git", "-C", WT, "apply", "-R", os.path.join(d, "patch.diff")])
+                rc0, out0 = sh(["bash", sh_demo, WT, CT + "-demo"], timeout=3600)
+                dres["demo.sh"] = {"with_change": {"passed": int(rc1 == 0), "failed": int(rc1 != 0), "exit": rc1, "tail": out1[-300:]},
+                                   "without_change": {"passed": int(rc0 == 0), "failed": int(rc0 != 0), "exit": rc0, "tail": out0[-300:]}}
+                demos = demos + [sh_demo]
             res["demos"] = dres
             res["confirmed"] = bool(res.get("builds_with_features") and res["suite_with_change"]["failed"] == 0 and res["suite_with_change"]["passed"] >= 153
                                     and (not demos or (any(v["with_change"]["failed"] > 0 for v in dres.values()) and all(v["without_change"]["failed"] == 0 and v["without_change"]["passed"] > 0 for v in dres.values()))))
             # re-apply for the checks
-            for demo in demos:
+            for demo in [x for x in demos if x.endswith(".rs")]:
                 try:
                     os.unlink(os.path.join(WT, "tests", os.path.basename(demo)))
                 except OSError:
